@@ -326,6 +326,14 @@ fn cache_history(rng: &mut Rng, u: &Uni, under: &Under, directed: Option<u64>, c
             for a in &u.addrs { script.push((0, Q::Basic(*a))); }
             tags.push("directed:insert-info-after-miss");
         }
+        Some(4) => { // destroy only, then read through the DatabaseRef side first (nothing cached by a &mut read yet)
+            let mut d = plain(a0, 0, 0); d.selfdestructed = true;
+            push_commit(&mut cache, vec![d], &mut ops, &mut obs, &mut human);
+            for (j, k) in u.keys.iter().enumerate() { script.push(([5u64, 4, 6, 7][j % 4], Q::Storage(a0, *k))); }
+            script.push((5, Q::Basic(a0))); script.push((5, Q::Has(a0)));
+            for k in &u.keys { script.push((0, Q::Storage(a0, *k))); }
+            tags.push("directed:destroy-then-ref-reads");
+        }
         Some(3) => { for a in &u.addrs { script.push((9, Q::Has(*a))); script.push((10, Q::Has(*a))); script.push((0, Q::Has(*a))); } tags.push("directed:components-has-storage"); }
         _ => {}
     }
@@ -460,7 +468,7 @@ pub fn run(o: &Opts) {
         let u = gen_universe(&mut rng);
         let wf = i % 11 != 10;
         let consistent = i % 7 != 6;
-        let (under, utag) = gen_under(&mut rng, &u, wf, i % 5 != 4 && i % 25 < 4);
+        let (under, utag) = gen_under(&mut rng, &u, wf, i % 5 != 4 && (i % 25 < 4 || i % 25 == 5));
         let data = observe_under(&under, &u);
         let uni = format!("{} {} {}", zlist(u.addrs.iter().map(|a| za(*a))), zlist(u.keys.iter().map(|k| zw(*k))),
             zlist(u.pool.codes.iter().enumerate().map(|(j, (_, h))| format!("({}, {})", zh(*h), j + 1))));
@@ -472,7 +480,7 @@ pub fn run(o: &Opts) {
             let case = format!("(CState {} {} {} {} {})", data, uni, zlist(ops.clone()), zlist(obs), keys);
             w.push(case, format!("State over {}: {}", utag, human.join("; ")), ops.len() >= 3, &tags);
         } else {
-            let directed = if i % 25 < 4 { Some((i % 25) as u64) } else { None };
+            let directed = match i % 25 { 0..=3 => Some((i % 25) as u64), 5 => Some(4), _ => None };
             let (ops, obs, human, t) = cache_history(&mut rng, &u, &under, directed, consistent, len);
             tags.extend(t); tags.push("wrapper:CacheDB+forwards");
             let case = format!("(CCache {} {} {} {})", data, uni, zlist(ops.clone()), zlist(obs));
